@@ -977,6 +977,59 @@ def numnorm(t):
     return t
 
 
+def int_test(d, unsigned=False):
+    """A boolean term that compares something with an integer constant, in any spelling
+    (`x < c`, `c > x`, `x <= c - 1`, `!(x >= c)`, and for unsigned x: `x != 0`, `x > 0`, `x >= 1`),
+    as the interval it is true on: (subject, lo, hi) with d <=> lo <= subject <= hi and None for
+    an open end; None when d is not of that form (or is two-sided and negated)."""
+    x = numnorm(d)
+    neg = False
+    while x[0] == "unop" and x[1] == "Not":
+        neg = not neg
+        x = numnorm(x[2])
+    if x[0] != "binop" or x[1] not in ("Lt", "Le", "Gt", "Ge", "Eq", "Ne"):
+        return None
+    op, a, b = x[1], x[2], x[3]
+    if a[0] == "int" and b[0] != "int":
+        a, b = b, a
+        op = {"Lt": "Gt", "Le": "Ge", "Gt": "Lt", "Ge": "Le", "Eq": "Eq", "Ne": "Ne"}[op]
+    if b[0] != "int" or a[0] == "int":
+        return None
+    c = b[1]
+    if op == "Lt":
+        lo, hi = None, c - 1
+    elif op == "Le":
+        lo, hi = None, c
+    elif op == "Gt":
+        lo, hi = c + 1, None
+    elif op == "Ge":
+        lo, hi = c, None
+    elif op == "Eq":
+        if unsigned and c == 0:
+            lo, hi = None, 0
+        else:
+            lo, hi = c, c
+    else:
+        if unsigned and c == 0:
+            lo, hi = 1, None
+        else:
+            return None
+    if neg:
+        if lo is None and hi is not None:
+            lo, hi = hi + 1, None
+        elif hi is None and lo is not None:
+            lo, hi = None, lo - 1
+        else:
+            return None
+    if unsigned and lo is not None and lo <= 0:
+        lo = None
+    if unsigned and hi is not None and hi < 0:
+        return None
+    if lo is None and hi is None:
+        return None
+    return (a, lo, hi)
+
+
 def strip_int_conversions(t):
     """the integer under value-preserving-or-panicking conversions: `x as uN`,
     `uN::try_from(x).unwrap() / .expect(..)`, `uN::from(x)` / `x.into()` between integers.
